@@ -11,7 +11,7 @@ fn main() {
     util::install_quiet_panic_hook();
     let args: Vec<String> = std::env::args().skip(1).collect();
     let prop = args.first().cloned().unwrap_or_default();
-    if !std::path::Path::new(cliworld::CLI_BIN).exists() || !std::path::Path::new(cliworld::SHIM_SO).exists() {
+    if !std::path::Path::new(&cliworld::cli_bin()).exists() || !std::path::Path::new(cliworld::SHIM_SO).exists() {
         eprintln!("HARNESS ERROR: {} or {} missing (run ./check setup)", cliworld::CLI_BIN, cliworld::SHIM_SO);
         std::process::exit(2);
     }
@@ -44,7 +44,7 @@ fn main() {
 }
 
 fn run_c12(tier: &str, root: u64, workers: usize, scale: u64) -> i32 {
-    let (worlds, max_plans) = if tier == "thorough" { (12_000 * scale, 60usize) } else { (320 * scale, 28usize) };
+    let (worlds, max_plans) = if tier == "thorough" { (6_000 * scale, 60usize) } else { (320 * scale, 28usize) };
     let worlds = util::runs_override(worlds);
     let start = Instant::now();
     let results = util::run_pool(worlds, workers, |i| {
